@@ -213,7 +213,7 @@ func (wk *worker) exec(cl *call, in []byte, m mut, fn func(in []byte) bool) {
 	if wk.prog != nil {
 		*(*uint64)(unsafe.Pointer(&wk.prog[0])) = uint64(wk.unit)
 		*(*uint64)(unsafe.Pointer(&wk.prog[8])) = uint64(wk.k)
-		n := copy(wk.prog[16:progLen-1], epNames[cl.ep])
+		n := copy(wk.prog[16:progLen-2], epNames[cl.ep])
 		wk.prog[16+n] = 0
 	}
 	if wk.solo > 0 {
@@ -232,7 +232,13 @@ func (wk *worker) exec(cl *call, in []byte, m mut, fn func(in []byte) bool) {
 	if measure {
 		a0 = wk.allocBytes()
 	}
+	if wk.prog != nil {
+		wk.prog[progLen-1] = 1 // inside the code under test: the supervisor's watchdog counts only this time
+	}
 	ok, panicked := wk.guard(cl, in, m, fn)
+	if wk.prog != nil {
+		wk.prog[progLen-1] = 0
+	}
 	if measure {
 		d := wk.allocBytes() - a0
 		if d > 8<<20 {
